@@ -240,7 +240,17 @@ def oracle_compile(case):
     if native_in and all(len(op.qubits) <= 2 for op in flat_in) and n2_out > n2_in:
         raise Violation(f"already-native input with {n2_in} two-qubit operations compiled to {n2_out} [{g['k']}]")
     used = {q for op in unit_in for q in op.qubits}
-    if g["k"] in WORST_2Q and len(used) == 2 and not has_ign and not case.get("deep") and not (g["k"] == "syc" and g.get("tab")):
+    # The worst case (3 CZ / 3 sqrt-iSWAP / 6 SYC) is documented for the synthesis of ONE two-qubit unitary = one merged connected
+    # component.  A 2-qubit circuit is one component unless (a) it holds a CircuitOperation: the documented keep-old-if-not-cheaper
+    # rule counts a nested native circuit as one interaction and keeps it (then only "not more than the input" is promised, checked
+    # above), or (b) the Sycamore target, which by its documented pre-processing merges adjacent SWAP + ZZPowGate pairs into a
+    # component of their own, separate from the rest.
+    one_component = not any(isinstance(op.untagged, cirq.CircuitOperation) for op in unit_in)
+    if g["k"] == "syc" and len(unit_in) > 1:
+        one_component = one_component and not (any(op.gate == cirq.SWAP for op in unit_in) and
+                                                any(isinstance(op.gate, cirq.ZZPowGate) for op in unit_in))
+    if (g["k"] in WORST_2Q and len(used) == 2 and one_component and not has_ign and not case.get("deep")
+            and not (g["k"] == "syc" and g.get("tab"))):
         if all(len(op.qubits) in (1, 2) and cirq.has_unitary(op) for op in unit_in) and n2_out > WORST_2Q[g["k"]]:
             raise Violation(f"two-qubit input compiled to {n2_out} two-qubit gates, documented worst case {WORST_2Q[g['k']]} [{g['k']}]")
     changed = out != circuit
@@ -765,6 +775,21 @@ def _near_weyl_boundary(x):
     return False
 
 
+def _tabulation_near_mirror_face(case):
+    """F19 trigger: a unitary whose KAK vector lies within (0, 1e-7) of the face x = pi/4 of the Weyl chamber, where the sign of z
+    is a convention: TwoQubitGateTabulation.compile_two_qubit_gate reports success but returns local gates for the mirror image."""
+    import math
+
+    circuit, qs, built = CG.build_compile_circuit(case["circ"], dict(case["gs"], k="syc", tab=True, atol=1e-8))
+    if not built or len(built[0].qubits) != 2:
+        return False
+    u = cirq.unitary(built[0], None)
+    if u is None:
+        return False
+    x = float(np.max(np.abs(cirq.kak_vector(u, check_preconditions=False))))
+    return 0 < math.pi / 4 - x < 1e-7
+
+
 def _sqrt_iswap_tight_atol_near_corner(case):
     """F18 trigger: SqrtIswapTargetGateset(atol < 1e-8) on an input within ~atol of a Weyl-chamber corner (KAK sub-decomposition
     inside _decomp_2sqrt_iswap_matrices is run with atol/10, below the numerical noise of the input)."""
@@ -774,6 +799,7 @@ def _sqrt_iswap_tight_atol_near_corner(case):
 
 KNOWN_FEATURES = {
     "F18_sqrt_iswap_tight_atol_near_weyl_corner": lambda sub, r: sub in ("compile_core", "twoq", "sqrt_iswap_required") and _sqrt_iswap_tight_atol_near_corner(r),
+    "F19_tabulation_near_weyl_mirror_face": lambda sub, r: sub == "syc_tabulation" and _tabulation_near_mirror_face(r),
     "F16_route_cqc_unidirectional_edges_livelock": lambda sub, r: sub == "route" and _unidirectional(r),
 }
 
